@@ -61,6 +61,9 @@ type Contract struct {
 	Ctx          *PkgCtx
 	Where        string
 	NoOverflow   bool
+	OSCalls      []string
+	OSCallsLabel string
+	HasOSCalls   bool
 	Interf       bool // interference fs
 }
 
@@ -77,6 +80,7 @@ type PureFunc struct {
 	RSort   Sort
 	Heapdep bool // ghost function depends on heap state (reads): gets state args
 	Opaque  bool
+	State   bool // mutable ghost state (a state component indexed by the single parameter)
 }
 
 type Lemma struct {
@@ -97,6 +101,7 @@ type Specs struct {
 	Pure      map[string]*PureFunc
 	Lemmas    []*Lemma
 	GlobalInv []*Clause
+	Axioms    []*Clause
 	Files     []string
 	P         *Program
 }
@@ -237,7 +242,7 @@ func parseSpecExpr(raw string) (ast.Expr, error) {
 // Loading
 
 var reLabel = regexp.MustCompile(`^([\w-]+)\[([^\]]+)\]\s*(.*)$`)
-var reExternHdr = regexp.MustCompile(`^(.*\.(?:[A-Za-z_]\w*|\*))\(([^()]*)\)\s*(?:\(([^()]*)\))?\s*$`)
+var reExternHdr = regexp.MustCompile(`^(.*\.(?:[A-Za-z_]\w*|\*)(?:<[^>]*>)?)\(([^()]*)\)\s*(?:\(([^()]*)\))?\s*$`)
 var rePureHdr = regexp.MustCompile(`^(\w+)\((.*?)\)\s*([^=]*?)\s*(?:=\s*(.*))?$`)
 
 type rawLine struct {
@@ -480,6 +485,19 @@ func (S *Specs) parseLines(lines []rawLine, ctx *PkgCtx, pkgShort string, extern
 				cur.Pure = true
 			}
 		case "ghost":
+			if strings.HasPrefix(rest, "state ") {
+				// ghost state name(key T) V: mutable ghost state of the environment (e.g. what a file holds),
+				// read as name(k), changed only through `modifies name(k)` clauses of assumed contracts
+				hdr := strings.TrimPrefix(rest, "state ")
+				S.parsePure(l, hdr, ctx, true, fail)
+				if m := rePureHdr.FindStringSubmatch(hdr); m != nil && S.Pure[m[1]] != nil {
+					S.Pure[m[1]].State = true
+					if len(S.Pure[m[1]].Params) != 1 {
+						fail(l, "ghost state needs exactly one key parameter")
+					}
+				}
+				continue
+			}
 			S.parsePure(l, strings.TrimPrefix(rest, "func "), ctx, true, fail)
 		case "opaque":
 			// opaque func: a heap-independent pure function kept behind an uninterpreted symbol with a
@@ -487,6 +505,14 @@ func (S *Specs) parseLines(lines []rawLine, ctx *PkgCtx, pkgShort string, extern
 			S.parsePure(l, strings.TrimPrefix(rest, "func "), ctx, false, fail)
 			if m := rePureHdr.FindStringSubmatch(strings.TrimPrefix(rest, "func ")); m != nil && S.Pure[m[1]] != nil {
 				S.Pure[m[1]].Opaque = true
+			}
+		case "os-calls-only":
+			// whitelist of functions of package os (and syscall, io/ioutil) the function may call
+			if cur != nil {
+				lab := label
+				cur.OSCallsLabel = lab
+				cur.OSCalls = append(cur.OSCalls, strings.Fields(rest)...)
+				cur.HasOSCalls = true
 			}
 		case "nooverflow":
 			if cur != nil {
@@ -618,6 +644,11 @@ func (S *Specs) parseLines(lines []rawLine, ctx *PkgCtx, pkgShort string, extern
 					lm.Props = []string{label[:i]}
 				}
 				S.Lemmas = append(S.Lemmas, lm)
+			}
+		case "axiom":
+			// an assumed closed formula over ghost functions (listed in the trusted base of every check using it)
+			if c := mkClause(l, "axiom", label, rest); c != nil {
+				S.Axioms = append(S.Axioms, c)
 			}
 		case "global":
 			r := strings.TrimSpace(strings.TrimPrefix(rest, "invariant"))
@@ -783,8 +814,8 @@ func resolveTypeExpr(ctx *PkgCtx, e ast.Expr) (types.Type, error) {
 }
 
 var directiveWords = map[string]bool{"import": true, "package": true, "func": true, "extern": true, "verify": true, "props": true, "trusted": true,
-	"pure": true, "ghost": true, "opaque": true, "nooverflow": true, "interference": true, "requires": true, "ensures": true, "ensures-local": true, "ensures-ghost": true, "modifies": true,
-	"loop": true, "callback": true, "at": true, "lemma": true, "global": true}
+	"pure": true, "ghost": true, "opaque": true, "nooverflow": true, "os-calls-only": true, "interference": true, "requires": true, "ensures": true, "ensures-local": true, "ensures-ghost": true, "modifies": true,
+	"loop": true, "callback": true, "at": true, "lemma": true, "global": true, "axiom": true}
 
 func startsWithDirective(body string) bool {
 	t := strings.TrimSpace(body)
